@@ -113,7 +113,7 @@ type Controller struct {
 
 // New installs a controller into rsec16 and returns it.
 func New() *Controller {
-	c := &Controller{Grace: 30 * time.Second, TraceKeep: 4096, MaxDriven: 150000}
+	c := &Controller{Grace: 30 * time.Second, TraceKeep: 4096, MaxDriven: 40000}
 	c.Stats.RegionShapes = map[string]int{}
 	c.Stats.ScheduleHash = 1469598103934665603
 	rsec16.SetVerifHooks(&rsec16.VerifHooks{
